@@ -9,6 +9,14 @@ variable (H : HashIn → Hash)
 theorem asIs_setClonesDirty : Cfg.asIs.setClonesDirty = true := rfl
 theorem asIs_rotateClones : Cfg.asIs.rotateClones = true := rfl
 
+/-- Validity survives an extension even at an object outside `K`, if that object is unpersisted. -/
+theorem Valid.ext' {K : Addr → Prop} {st st' : St} {x : Addr} (h : Valid st x) (hext : ExtOn K st st')
+    (hk : K x ∨ ∃ c, st.heap[x]? = some c ∧ c.persisted = false) : Valid st' x := by
+  rcases hk with hk | ⟨c, hc, hp⟩
+  · exact h.ext hext hk
+  · obtain ⟨c', hc'⟩ := get_of_lt (Nat.lt_of_lt_of_le (lt_of_get hc) hext.len)
+    exact ⟨c', hc', fun hp' => by rw [hext.pers x c c' hc hc', hp] at hp'; cases hp'⟩
+
 theorem Fresh.mono {st : St} {P P' : Addr → Prop} (h : ∀ x, P x → P' x) {x : Addr} (hx : Fresh st P x) :
     Fresh st P' x := by
   rcases hx with hx | hx | hx
@@ -24,7 +32,8 @@ theorem recursiveSet_spec (version : Nat) (key value : Bytes) :
       depth t < fuel → CacheOK st → Rep H P st t a →
       ∃ st' n orph', recursiveSet Cfg.asIs version fuel st a key value orphans
           = some (st', n, (Node.recursiveSet version t key value).2, orph') ∧
-        Ext st st' ∧ CacheOK st' ∧ Rep H (Fresh st P) st' (Node.recursiveSet version t key value).1 n := by
+        Ext st st' ∧ CacheOK st' ∧ Rep H (Fresh st P) st' (Node.recursiveSet version t key value).1 n ∧
+        (∃ extra, orph' = orphans ++ extra ∧ ∀ x ∈ extra, Valid st' x) := by
   intro t
   induction t with
   | leaf k v ver =>
@@ -44,7 +53,8 @@ theorem recursiveSet_spec (version : Nat) (key value : Bytes) :
       let n := st1.heap.length
       have he2 : Ext st1 st2 := alloc_ext st1 _
       have hn2 : st2.heap[n]? = some cn := alloc_new st1 _
-      refine ⟨st2, n, orphans, ?_, he1.trans he2, CacheOK.ext hc1 he2 (fun _ _ _ _ => trivial) (fun _ _ h => h), ?_⟩
+      refine ⟨st2, n, orphans, ?_, he1.trans he2, CacheOK.ext hc1 he2 (fun _ _ _ _ => trivial) (fun _ _ h => h), ?_,
+        ⟨[], by simp, fun _ hx => by cases hx⟩⟩
       · have hlt' : key < c.key := by rw [hk]; exact hlt
         simp [recursiveSet, ha, hh, hlt', Node.recursiveSet, hlt]
         exact ⟨rfl, rfl⟩
@@ -60,7 +70,8 @@ theorem recursiveSet_spec (version : Nat) (key value : Bytes) :
         let n := st1.heap.length
         have he2 : Ext st1 st2 := alloc_ext st1 _
         have hn2 : st2.heap[n]? = some cn := alloc_new st1 _
-        refine ⟨st2, n, orphans, ?_, he1.trans he2, CacheOK.ext hc1 he2 (fun _ _ _ _ => trivial) (fun _ _ h => h), ?_⟩
+        refine ⟨st2, n, orphans, ?_, he1.trans he2, CacheOK.ext hc1 he2 (fun _ _ _ _ => trivial) (fun _ _ h => h), ?_,
+          ⟨[], by simp, fun _ hx => by cases hx⟩⟩
         · have hlt' : ¬ key < c.key := by rw [hk]; exact hlt
           have hgt' : c.key < key := by rw [hk]; exact hgt
           simp [recursiveSet, ha, hh, hlt', hgt', Node.recursiveSet, hlt, hgt]
@@ -71,7 +82,10 @@ theorem recursiveSet_spec (version : Nat) (key value : Bytes) :
           refine Rep.mk_inner H hfn hn2 rfl rfl (by decide) rfl rfl ?_ ?_ rfl rfl
           · exact Slot.ofPtr H (Rep.mono H (Rep.ext H hrepa (he1.trans he2) (fun _ _ => trivial)) (fun _ _ hx _ => Or.inl hx))
           · exact Slot.ofPtr H (Rep.mk_leaf H hfnl (he2.cells _ _ trivial hnl1))
-      · refine ⟨st1, nl, orphans ++ [a], ?_, he1, hc1, ?_⟩
+      · refine ⟨st1, nl, orphans ++ [a], ?_, he1, hc1, ?_, ⟨[a], rfl, fun x hx => ?_⟩⟩
+        rotate_left 2
+        · rw [List.mem_singleton.mp hx]
+          exact (Rep.valid H hrepa).ext he1 trivial
         · have hlt' : ¬ key < c.key := by rw [hk]; exact hlt
           have hgt' : ¬ c.key < key := by rw [hk]; exact hgt
           simp [recursiveSet, ha, hh, hlt', hgt', Node.recursiveSet, hlt, hgt]
@@ -101,7 +115,7 @@ theorem recursiveSet_spec (version : Nat) (key value : Bytes) :
     by_cases hlt : key < k
     · -- descend to the left
       obtain ⟨st2, lp, hg2, he2, hc2, hrl2⟩ := getLeft_spec H hc1 hnode1 hl1
-      obtain ⟨st3, nl, orph3, hrec, he3, hc3, hrep3⟩ := ihl fuel _ st2 lp (orphans ++ [a]) hdl hc2 hrl2
+      obtain ⟨st3, nl, orph3, hrec, he3, hc3, hrep3, ex3, hex3, hv3⟩ := ihl fuel _ st2 lp (orphans ++ [a]) hdl hc2 hrl2
       have hnode2 : st2.heap[node]? = some cn := he2.cells _ _ trivial hnode1
       have hnode3 : st3.heap[node]? = some cn := he3.cells _ _ trivial hnode2
       let PB : Addr → Prop := Fresh st2 (Fresh st1 P0)
@@ -118,6 +132,8 @@ theorem recursiveSet_spec (version : Nat) (key value : Bytes) :
       have hl4 : Slot H PB st4 (Node.recursiveSet version l key value).1 cn4.leftPtr cn4.leftHash :=
         Slot.ofPtr H (Rep.ext H hrep3 he4 hPBne)
       have he14 : ExtOn (· ≠ node) st1 st4 := ((he2.trans he3).on _).trans he4
+      have hva1 : Valid st1 a := (Rep.valid H hrep).ext he1 trivial
+      have hane : a ≠ node := Nat.ne_of_lt (lt_of_get ha)
       have hr4 : Slot H PB st4 r cn4.rightPtr cn4.rightHash :=
         Slot.mono H (Slot.ext H hr1 he14 (fun x hx e => hnotP0 (e ▸ hx))) (fun _ _ hx _ => Or.inl (Or.inl hx))
       have hPBfresh : ∀ x, PB x → Fresh st P x := fun x hx =>
@@ -126,7 +142,17 @@ theorem recursiveSet_spec (version : Nat) (key value : Bytes) :
       have hlt' : key < cn.key := by rw [hcnk]; exact hlt
       cases hupd : (Node.recursiveSet version l key value).2 with
       | true =>
-        refine ⟨st4, node, orph3, ?_, ?_, hc4, ?_⟩
+        have hvfin : ∀ x ∈ [a] ++ ex3, Valid st4 x := by
+          intro x hx
+          have hk : ∀ y, y ≠ node ∨ ∃ c, st3.heap[y]? = some c ∧ c.persisted = false := fun y => by
+            by_cases e : y = node
+            · exact Or.inr ⟨cn, e ▸ hnode3, rfl⟩
+            · exact Or.inl e
+          rcases List.mem_append.mp hx with hx | hx
+          · rw [List.mem_singleton.mp hx]
+            exact ((hva1.ext (he2.trans he3) trivial).ext' he4 (hk a))
+          · exact (hv3 x hx).ext' he4 (hk x)
+        refine ⟨st4, node, orph3, ?_, ?_, hc4, ?_, ⟨[a] ++ ex3, by rw [hex3]; simp, hvfin⟩⟩
         · rw [hupd] at hrec
           simp only [recursiveSet, ha, hc0, asIs_setClonesDirty, Bool.true_or, if_true, if_false, e1, Option.map_some,
             Option.bind_eq_bind, Option.bind_some, hnode1, hlt', hg2, hrec, e4, Node.recursiveSet, if_pos hlt, hupd]
@@ -145,9 +171,22 @@ theorem recursiveSet_spec (version : Nat) (key value : Bytes) :
         obtain ⟨st5, hcalc, he5, hc5, hnode5⟩ := calcHS_spec H hc4 hnode4 rfl hnotPB hl4 hr4
         have hl5 := Slot.ext H hl4 he5 hPBne
         have hr5 := Slot.ext H hr4 he5 hPBne
-        obtain ⟨st6, n, orph6, cn6, hbal, he6, hc6, hrep6, _, _, _, _, _⟩ :=
+        obtain ⟨st6, n, orph6, cn6, hbal, he6, hc6, hrep6, _, _, _, _, ex6, hex6, hv6⟩ :=
           balance_spec H version orph3 hc5 hnode5 rfl hnotPB hk rfl (Nat.succ_ne_zero _) rfl rfl rfl hl5 hr5
-        refine ⟨st6, n, orph6, ?_, ?_, hc6, ?_⟩
+        have hvfin : ∀ x ∈ [a] ++ ex3 ++ ex6, Valid st6 x := by
+          intro x hx
+          have he36 : ExtOn (· ≠ node) st3 st6 := (he4.trans he5).trans he6
+          have hk : ∀ y, y ≠ node ∨ ∃ c, st3.heap[y]? = some c ∧ c.persisted = false := fun y => by
+            by_cases e : y = node
+            · exact Or.inr ⟨cn, e ▸ hnode3, rfl⟩
+            · exact Or.inl e
+          rcases List.mem_append.mp hx with hx | hx
+          · rcases List.mem_append.mp hx with hx | hx
+            · rw [List.mem_singleton.mp hx]
+              exact ((hva1.ext (he2.trans he3) trivial).ext' he36 (hk a))
+            · exact (hv3 x hx).ext' he36 (hk x)
+          · exact hv6 x hx
+        refine ⟨st6, n, orph6, ?_, ?_, hc6, ?_, ⟨[a] ++ ex3 ++ ex6, by rw [hex6, hex3]; simp, hvfin⟩⟩
         · rw [hupd] at hrec
           simp only [recursiveSet, ha, hc0, asIs_setClonesDirty, Bool.true_or, if_true, if_false, e1, Option.map_some,
             Option.bind_eq_bind, Option.bind_some, hnode1, hlt', hg2, hrec, e4, Node.recursiveSet, if_pos hlt, hupd,
@@ -161,7 +200,7 @@ theorem recursiveSet_spec (version : Nat) (key value : Bytes) :
           · exact Or.inr (Or.inl (by rw [hx]; exact Nat.le_refl _))
     · -- descend to the right
       obtain ⟨st2, rp, hg2, he2, hc2, hrr2⟩ := getRight_spec H hc1 hnode1 hr1
-      obtain ⟨st3, nr, orph3, hrec, he3, hc3, hrep3⟩ := ihr fuel _ st2 rp (orphans ++ [a]) hdr hc2 hrr2
+      obtain ⟨st3, nr, orph3, hrec, he3, hc3, hrep3, ex3, hex3, hv3⟩ := ihr fuel _ st2 rp (orphans ++ [a]) hdr hc2 hrr2
       have hnode2 : st2.heap[node]? = some cn := he2.cells _ _ trivial hnode1
       have hnode3 : st3.heap[node]? = some cn := he3.cells _ _ trivial hnode2
       let PB : Addr → Prop := Fresh st2 (Fresh st1 P0)
@@ -178,6 +217,8 @@ theorem recursiveSet_spec (version : Nat) (key value : Bytes) :
       have hr4 : Slot H PB st4 (Node.recursiveSet version r key value).1 cn4.rightPtr cn4.rightHash :=
         Slot.ofPtr H (Rep.ext H hrep3 he4 hPBne)
       have he14 : ExtOn (· ≠ node) st1 st4 := ((he2.trans he3).on _).trans he4
+      have hva1 : Valid st1 a := (Rep.valid H hrep).ext he1 trivial
+      have hane : a ≠ node := Nat.ne_of_lt (lt_of_get ha)
       have hl4 : Slot H PB st4 l cn4.leftPtr cn4.leftHash :=
         Slot.mono H (Slot.ext H hl1 he14 (fun x hx e => hnotP0 (e ▸ hx))) (fun _ _ hx _ => Or.inl (Or.inl hx))
       have hPBfresh : ∀ x, PB x → Fresh st P x := fun x hx =>
@@ -186,7 +227,17 @@ theorem recursiveSet_spec (version : Nat) (key value : Bytes) :
       have hlt' : ¬ key < cn.key := by rw [hcnk]; exact hlt
       cases hupd : (Node.recursiveSet version r key value).2 with
       | true =>
-        refine ⟨st4, node, orph3, ?_, ?_, hc4, ?_⟩
+        have hvfin : ∀ x ∈ [a] ++ ex3, Valid st4 x := by
+          intro x hx
+          have hk : ∀ y, y ≠ node ∨ ∃ c, st3.heap[y]? = some c ∧ c.persisted = false := fun y => by
+            by_cases e : y = node
+            · exact Or.inr ⟨cn, e ▸ hnode3, rfl⟩
+            · exact Or.inl e
+          rcases List.mem_append.mp hx with hx | hx
+          · rw [List.mem_singleton.mp hx]
+            exact ((hva1.ext (he2.trans he3) trivial).ext' he4 (hk a))
+          · exact (hv3 x hx).ext' he4 (hk x)
+        refine ⟨st4, node, orph3, ?_, ?_, hc4, ?_, ⟨[a] ++ ex3, by rw [hex3]; simp, hvfin⟩⟩
         · rw [hupd] at hrec
           simp only [recursiveSet, ha, hc0, asIs_setClonesDirty, Bool.true_or, if_true, if_false, e1, Option.map_some,
             Option.bind_eq_bind, Option.bind_some, hnode1, hlt', hg2, hrec, e4, Node.recursiveSet, if_neg hlt, hupd]
@@ -205,9 +256,22 @@ theorem recursiveSet_spec (version : Nat) (key value : Bytes) :
         obtain ⟨st5, hcalc, he5, hc5, hnode5⟩ := calcHS_spec H hc4 hnode4 rfl hnotPB hl4 hr4
         have hl5 := Slot.ext H hl4 he5 hPBne
         have hr5 := Slot.ext H hr4 he5 hPBne
-        obtain ⟨st6, n, orph6, cn6, hbal, he6, hc6, hrep6, _, _, _, _, _⟩ :=
+        obtain ⟨st6, n, orph6, cn6, hbal, he6, hc6, hrep6, _, _, _, _, ex6, hex6, hv6⟩ :=
           balance_spec H version orph3 hc5 hnode5 rfl hnotPB hk rfl (Nat.succ_ne_zero _) rfl rfl rfl hl5 hr5
-        refine ⟨st6, n, orph6, ?_, ?_, hc6, ?_⟩
+        have hvfin : ∀ x ∈ [a] ++ ex3 ++ ex6, Valid st6 x := by
+          intro x hx
+          have he36 : ExtOn (· ≠ node) st3 st6 := (he4.trans he5).trans he6
+          have hk : ∀ y, y ≠ node ∨ ∃ c, st3.heap[y]? = some c ∧ c.persisted = false := fun y => by
+            by_cases e : y = node
+            · exact Or.inr ⟨cn, e ▸ hnode3, rfl⟩
+            · exact Or.inl e
+          rcases List.mem_append.mp hx with hx | hx
+          · rcases List.mem_append.mp hx with hx | hx
+            · rw [List.mem_singleton.mp hx]
+              exact ((hva1.ext (he2.trans he3) trivial).ext' he36 (hk a))
+            · exact (hv3 x hx).ext' he36 (hk x)
+          · exact hv6 x hx
+        refine ⟨st6, n, orph6, ?_, ?_, hc6, ?_, ⟨[a] ++ ex3 ++ ex6, by rw [hex6, hex3]; simp, hvfin⟩⟩
         · rw [hupd] at hrec
           simp only [recursiveSet, ha, hc0, asIs_setClonesDirty, Bool.true_or, if_true, if_false, e1, Option.map_some,
             Option.bind_eq_bind, Option.bind_some, hnode1, hlt', hg2, hrec, e4, Node.recursiveSet, if_neg hlt, hupd,
